@@ -31,6 +31,7 @@
 #include <atomic>
 #include <chrono>
 #include <condition_variable>
+#include <cstdlib>
 #include <deque>
 #include <functional>
 #include <future>
@@ -49,7 +50,13 @@ using i64 = std::int64_t;
 
 namespace
 {
-    constexpr int STALL_S = 15;  // stall detector of the free-running mode (lost wake-up), seconds
+    // stall detector (lost wake-up / sender blocked for ever), seconds; HGV_PUSHQ_STALL_S shortens it for
+    // mutation runs, where many cases stall
+    const int STALL_S = [] {
+        const char *e = std::getenv("HGV_PUSHQ_STALL_S");
+        const int   v = e != nullptr ? std::atoi(e) : 0;
+        return v > 0 ? v : 15;
+    }();
 
     i64      us(DateTime t) { return t.time_since_epoch().count(); }
     DateTime dt(i64 v) { return DateTime{TimeDelta{v}}; }
@@ -413,6 +420,24 @@ namespace
         const std::uint64_t seed = (std::uint64_t)c[0][8];
         Obs       obs{&w};
 
+        // watchdog: a run that deadlocks (e.g. a sender stuck for ever inside the source keeps graph stop
+        // waiting for quiescence) must not hang the harness: report and leave
+        std::atomic<bool> case_done{false};
+        std::thread       watchdog([&] {
+            const auto limit = std::chrono::steady_clock::now() + std::chrono::seconds{4 * STALL_S + 20};
+            while (!case_done.load())
+            {
+                if (std::chrono::steady_clock::now() > limit)
+                {
+                    std::fprintf(stderr, "pushq stress case deadlocked\n");
+                    out.line({96, 1});
+                    out.end_case();
+                    std::fflush(stdout);
+                    std::_Exit(5);
+                }
+                std::this_thread::sleep_for(std::chrono::milliseconds{20});
+            }
+        });
         std::promise<void>       started_promise;
         std::shared_future<void> started = started_promise.get_future().share();
         w.on_started = [&] { started_promise.set_value(); };
@@ -423,7 +448,7 @@ namespace
         auto view = w.executor->view();
 
         std::vector<std::vector<SendRec>> logs((std::size_t)nprod);
-        std::atomic<i64>                  accepted{0};
+        std::atomic<i64>                  accepted{0}, calls{0}, finished{0};
         std::atomic<bool>                 run_error{false};
         std::atomic<i64>                  run_returned{0};
         std::thread                       runner([&] {
@@ -454,11 +479,13 @@ namespace
                     rec.result = do_send(sender, v, blocking);
                     rec.a      = w.ticket.fetch_add(1);
                     if (rec.result == 1) { accepted.fetch_add(1); }
+                    calls.fetch_add(1);
                     log.push_back(rec);
                     if (pace == 1) { std::this_thread::yield(); }
                     else if (pace == 2) { std::this_thread::sleep_for(std::chrono::microseconds{(r >> 8) % 300}); }
                     else if (pace == 3 && ((r >> 8) % 16) == 0) { std::this_thread::sleep_for(std::chrono::microseconds{500 + (r >> 16) % 2000}); }
                 }
+                finished.fetch_add(1);
             });
         }
 
@@ -471,8 +498,8 @@ namespace
             {
                 auto      m = g.node_at(0).inspection_metrics().pending_items;
                 const i64 s = w.ticket.fetch_add(1);
-                if (m.has_value() && samples.size() < 400) { samples.emplace_back(s, (i64)*m); }
-                std::this_thread::sleep_for(std::chrono::microseconds{200});
+                if (m.has_value() && samples.size() < 1500) { samples.emplace_back(s, (i64)*m); }
+                std::this_thread::sleep_for(std::chrono::microseconds{40});
             }
         });
 
@@ -493,31 +520,26 @@ namespace
             view.request_stop();
             stop_r = w.ticket.fetch_add(1);
         }
-        for (auto &t : producers) { t.join(); }
-        if (stop_mode != 1)
+        else
         {
-            // run "long enough": until everything accepted is delivered; a lost wake-up shows as a stall
+            // run "long enough": until every producer is through and everything accepted is delivered.
+            // Progress = a send call returned or a value was delivered; no progress for STALL_S seconds
+            // with work outstanding is a stall (a lost wake-up / a sender blocked for ever): the stop
+            // request below then releases whoever is stuck, so the harness itself never hangs.
             auto last_progress = std::chrono::steady_clock::now();
             i64  last          = -1;
             for (;;)
             {
-                bool done;
-                i64  n;
-                if (w.policy == 2)
-                {
-                    // conflating: done when nothing is pending any more
-                    n    = delivered_count();
-                    done = pending_items(w) == 0 && flag(w) == 0;
-                }
-                else
-                {
-                    n    = delivered_count();
-                    done = n >= accepted.load();
-                }
+                const bool producers_done = finished.load() == nprod;
+                const i64  n              = delivered_count();
+                bool       done;
+                if (w.policy == 2) { done = producers_done && pending_items(w) == 0 && flag(w) == 0; }
+                else { done = producers_done && n >= accepted.load(); }
                 if (done) { break; }
-                if (n != last)
+                const i64 progress = n + calls.load();
+                if (progress != last)
                 {
-                    last          = n;
+                    last          = progress;
                     last_progress = std::chrono::steady_clock::now();
                 }
                 else if (std::chrono::steady_clock::now() - last_progress > std::chrono::seconds{STALL_S})
@@ -531,6 +553,9 @@ namespace
             view.request_stop();
             stop_r = w.ticket.fetch_add(1);
         }
+        // a stalled run may have left senders blocked in send_blocking: the stop releases them once the
+        // run loop has left; give the run a moment, then join
+        for (auto &t : producers) { t.join(); }
         sampling = false;
         sampler.join();
         runner.join();
@@ -562,6 +587,8 @@ namespace
         sender = PushSourceSender{};
         w.senders.clear();
         w.executor.reset();
+        case_done = true;
+        watchdog.join();
     }
 }  // namespace
 
